@@ -76,7 +76,7 @@ func (wtr *XMLWtr) container(lvl int) node.Node {
 			return nil, nil
 		}
 		if !meta.IsList(r.Meta) {
-			if err = wtr.beginContainer(wtr.ident(r.Path)); err != nil {
+			if err = wtr.beginContainer(wtr.ident(r.Path) + wtr.xmlnsAttr(r.Path)); err != nil {
 				return nil, err
 			}
 		}
@@ -112,7 +112,7 @@ func (wtr *XMLWtr) container(lvl int) node.Node {
 		return nil
 	}
 	s.OnField = func(r node.FieldRequest, hnd *node.ValueHandle) (err error) {
-		ns := ""
+		ns := wtr.changedXmlns(r.Path)
 
 		if l, listable := hnd.Val.(val.Listable); listable {
 			for i := 0; i < l.Len(); i++ {
@@ -132,7 +132,7 @@ func (wtr *XMLWtr) container(lvl int) node.Node {
 			return
 		}
 
-		ident := wtr.ident(r.Selection.Path)
+		ident := wtr.ident(r.Selection.Path) + wtr.xmlnsAttr(r.Selection.Path)
 
 		if err = wtr.beginContainer(ident); err != nil {
 			return
@@ -155,6 +155,28 @@ func (wtr *XMLWtr) getXmlns(p *node.Path) string {
 		ns = meta.OriginalModule(p.Meta).Namespace()
 	}
 	return ns
+}
+
+// changedXmlns is the namespace of a node defined in a different namespace than
+// its parent element (nodes added by an augment or a uses of another module), ""
+// when the namespace is inherited from the parent element.
+func (wtr *XMLWtr) changedXmlns(p *node.Path) string {
+	if p.Parent == nil || p.Parent.Meta == nil {
+		return ""
+	}
+	ns := wtr.getXmlns(p)
+	if ns == wtr.getXmlns(p.Parent) {
+		return ""
+	}
+	return ns
+}
+
+func (wtr *XMLWtr) xmlnsAttr(p *node.Path) string {
+	ns := wtr.changedXmlns(p)
+	if ns == "" {
+		return ""
+	}
+	return " xmlns=" + "\"" + ns + "\""
 }
 
 func (wtr *XMLWtr) beginContainer(ident string) (err error) {
